@@ -556,6 +556,28 @@ func (g *Signer) atomSign(id AtomID, strict bool) bool {
 			for _, f := range g.ctx {
 				h.addFact(f)
 			}
+			// what is known where the question is asked also held while a helper's loop ran, as
+			// far as it speaks only of values fixed for the whole call (parameters, their lengths
+			// and fields, constants — nothing carried by a loop or read from updated memory)
+			if pfc.Fn != p.Parent() || len(pfc.bindArgs) > 0 {
+				for _, f := range g.facts {
+					fixed := true
+					for _, fa := range f.Atoms(true) {
+						if _, isPhi := g.X.phiOf[fa.ID]; isPhi {
+							fixed = false
+						}
+						if _, isMem := g.X.memphiOf[fa.ID]; isMem {
+							fixed = false
+						}
+						if strings.HasPrefix(fa.Name, "idx") || strings.HasPrefix(fa.Name, "lookup") || strings.HasPrefix(fa.Name, "call:") || strings.HasPrefix(fa.Name, "apply") {
+							fixed = false
+						}
+					}
+					if fixed {
+						h.addFact(f)
+					}
+				}
+			}
 			// the edge condition from pred into the header
 			h.addFact(pfc.edgeCond(preds[i], p.Block()))
 			if !h.sign(pfc.Val(v), strict) {
